@@ -68,6 +68,10 @@ checks = {
    "Histories of 8..40 cursor operations on two cursors (DECLARE/OPEN/FETCH with every position keyword and boundary offsets/CLOSE/DISPOSE/WHILE..IN/status expressions) interleaved with DML, ALTER, COMMIT and ROLLBACK on the underlying table run statement by statement in one real transaction; a cursor model whose snapshot is taken by a SELECT at OPEN time is compared after every operation: fetched values, IS OPEN / IS IN RANGE / COUNT, rows visited by WHILE..IN and error/no-error.",
    "Variables after an out-of-range FETCH are not judged; non-integer offsets only watched for internal failures.",
    "runtime monitor: state-machine model compared after every operation of a history"),
+ "C18": ("exploration", "§5 C18",
+   "150 000 (quick) / 6 000 000 (thorough) program texts — random bytes, token soups from the parser's own keyword table, seeds mined at run time from the manual, parser_test.go and testdata, outputs of the C03/C05/C14/C15 generators, hostile string/identifier literals and unary-sign chains, all mutated at byte, token and slice level — are parsed in the four quoting/prepared modes. Online monitors: no panic, no hang (per-case watchdog, journalled input), syntax-error positions inside the input; every value expression of every tree that parsed is printed, re-parsed, printed again (idempotence) and, when closed, evaluated in both forms (same value).",
+   "Seeded deterministic mutation, no coverage feedback. Lines are counted with CRLF, LF and lone CR as breaks (as csvq's scanner does).",
+   "fuzzing with online monitors (totality, error-position, print/parse round-trip and value-preservation oracles)"),
 }
 order = ["C%02d" % i for i in range(1, 21)]
 na_reason = "check not built yet in this session (work in progress; see DESIGN.md)"
